@@ -19,7 +19,10 @@ type c04Exec struct {
 	Plan  []FaultSpec `json:"plan,omitempty"`
 	// NilCtx: execute with a nil Context. SetGlob: before this execution the caller assigns
 	// set.Globals["glob"] (Globals are part of what a template renders from).
-	NilCtx  bool   `json:"nil_context,omitempty"`
+	NilCtx bool `json:"nil_context,omitempty"`
+	// Rename: before this execution the caller renames a key of the (long-lived) context
+	// map in place - to something that is not an identifier, or back again
+	Rename  bool   `json:"rename_key_in_place,omitempty"`
 	SetGlob string `json:"set_global,omitempty"`
 }
 
@@ -75,6 +78,9 @@ func c04Gen(tp *Tapes) *c04Spec {
 		}
 		if g.Draw(6) == 5 {
 			e.SetGlob = fmt.Sprintf("G%d<&>", i)
+		}
+		if g.Draw(8) == 7 {
+			e.Rename = true
 		}
 		if f.Draw(3) == 2 {
 			switch f.Draw(4) {
@@ -189,7 +195,21 @@ func (c04Checker) Run(tp *Tapes, opt RunOpt) *Outcome {
 		seenCtx := map[int]bool{}
 		nontrivial := false
 		curGlob := ""
+		renamed := map[int]bool{}
+		rename := func(c pongo2.Context, bad bool) {
+			if bad {
+				delete(c, "lzmissing")
+				c["lz-missing"] = "nope.tpl"
+			} else {
+				delete(c, "lz-missing")
+				c["lzmissing"] = "nope.tpl"
+			}
+		}
 		for i, e := range hist {
+			if e.Rename && !sp.Pool[e.Ctx].BadKey { // (never two invalid keys: which one is reported depends on map order)
+				renamed[e.Ctx] = !renamed[e.Ctx]
+				rename(sys.pool[e.Ctx], renamed[e.Ctx]) // same map object, same length
+			}
 			if e.SetGlob != "" {
 				curGlob = e.SetGlob
 				sys.set.Globals["glob"] = curGlob
@@ -206,10 +226,14 @@ func (c04Checker) Run(tp *Tapes, opt RunOpt) *Outcome {
 			if curGlob != "" {
 				ref.set.Globals["glob"] = curGlob
 			}
-			want := ref.exec(sp, i, e, ref.w.BuildCtx(sp.Pool[e.Ctx]))
+			rctx := ref.w.BuildCtx(sp.Pool[e.Ctx])
+			if renamed[e.Ctx] {
+				rename(rctx, true)
+			}
+			want := ref.exec(sp, i, e, rctx)
 			ref.w.Fired = map[string]int{}
 			hh.u64(uint64(e.Ctx)<<8 | uint64(e.Entry))
-			hh.str(fmt.Sprintf("%v|%s", e.NilCtx, e.SetGlob))
+			hh.str(fmt.Sprintf("%v|%s|%v", e.NilCtx, e.SetGlob, e.Rename))
 			for _, f := range e.Plan {
 				hh.u64(uint64(f.Site)<<40 | uint64(f.Fault)<<32 | uint64(f.Occ))
 			}
